@@ -3,13 +3,13 @@
 D=$(readlink -f "$1"); IDS=$2
 WT=$(mktemp -d /tmp/cs_XXXXXX); rmdir $WT
 git -C /repo worktree add -q --detach "$WT" HEAD
-trap 'git -C /repo worktree remove --force "$WT" >/dev/null 2>&1' EXIT
+trap 'git -C /repo worktree remove --force "$WT" >/dev/null 2>&1; rm -f $WT.demo.log $WT.check.log' EXIT
 # the demo is run from <scratch worktree>/out/seed/ so that demos which locate the sources relative to their own path use the scratch tree
 mkdir -p "$WT/out/seed" && cp "$D"/demo.py "$WT/out/seed/demo.py"
-run_demo() { (cd "$WT" && if grep -q "def test_" "$WT/out/seed/demo.py"; then PYTHONPATH="$WT/src" timeout 900 /venv/bin/python -m pytest -q -p no:cacheprovider "$WT/out/seed/demo.py" >/tmp/cs_demo.log 2>&1; else PYTHONPATH="$WT/src" timeout 900 /venv/bin/python "$WT/out/seed/demo.py" >/tmp/cs_demo.log 2>&1; fi; echo $?); }
+run_demo() { (cd "$WT" && if grep -q "def test_" "$WT/out/seed/demo.py"; then PYTHONPATH="$WT/src" timeout 900 /venv/bin/python -m pytest -q -p no:cacheprovider "$WT/out/seed/demo.py" >$WT.demo.log 2>&1; else PYTHONPATH="$WT/src" timeout 900 /venv/bin/python "$WT/out/seed/demo.py" >$WT.demo.log 2>&1; fi; echo $?); }
 echo "demo WITHOUT patch: exit $(run_demo)"
 if ! git -C "$WT" apply "$D/patch.diff"; then echo "PATCH DOES NOT APPLY to HEAD"; exit 2; fi
-echo "demo WITH patch:    exit $(run_demo)"; tail -3 /tmp/cs_demo.log | cut -c1-200
+echo "demo WITH patch:    exit $(run_demo)"; tail -3 $WT.demo.log | cut -c1-200
 for ID in ${IDS//,/ }; do
-  (cd /verif && VERIF_OUT="$WT/out/verif_out" RESONAATE_SRC="$WT/src" VERIF_SEED=${SEED:-0} ./check "$ID" ${TIER:-quick} > /tmp/cs_check.log 2>&1; echo "== check $ID exit=$?"; grep "^VIOLATION\|^\[" /tmp/cs_check.log | cut -c1-330 | tail -4)
+  (cd /verif && VERIF_OUT="$WT/out/verif_out" RESONAATE_SRC="$WT/src" VERIF_SEED=${SEED:-0} ./check "$ID" ${TIER:-quick} > $WT.check.log 2>&1; echo "== check $ID exit=$?"; grep "^VIOLATION\|^\[" $WT.check.log | cut -c1-330 | tail -4)
 done
